@@ -489,6 +489,12 @@ def rule_i(ctx: Ctx) -> None:
                '' if ok else 'an accepting exit without the type identity test: bool is an int for isinstance(), so fixed="1" on a union of xs:int and xs:boolean accepts <flag>true</flag> '
                '(and fixed="true" accepts 1)', key=f'strictly_equal|{text(v)[:30]}')
     ctx.floor(rule, 'accepting exits of strictly_equal', n, 1)
+    # the value of a list type is a list: its items are compared with the same rule (the outer `list is list` says nothing about [True, False] vs [1, 0])
+    rec = [r for r in g.nodes if r.kind == 'return' and r.ast.value is not None and 'strictly_equal' in text(r.ast.value)
+           and any(lab == 'T' and 'isinstance(' in t and 'list' in t for t, lab in guards(ctx, f, r))]
+    ctx.ob(rule, 'strictly_equal: two lists are compared item by item with the same rule', f.loc(rec[0].ast) if rec else f.loc(), bool(rec),
+           '' if rec else 'no recursive comparison for lists: fixed="1 0" on a list of union(xs:int, xs:boolean) is matched by "true false" ([True, False] == [1, 0])',
+           key='strictly_equal|lists-itemwise')
     ctx.explain('C07.i: every non-False return of utils.decoding.strictly_equal is guarded by, or conjoined with (truth table), `type(obj1) is type(obj2)`.')
 
 
